@@ -69,6 +69,9 @@ func childMain(mode string) int {
 	if mode == "racecanary" {
 		return raceCanaryChild()
 	}
+	if mode == "c04hist" {
+		return c04HistoryChild()
+	}
 	if mode != "c16" {
 		fmt.Println("unknown child mode", mode)
 		return 2
